@@ -12,7 +12,8 @@ import lib
 
 AGG_KINDS = ['MIN', 'MAX', 'SUM', 'AVG', 'VARIANCE', 'MEDIAN', 'COUNT', 'ARRAY_AGG', 'ANY_VALUE']
 EXPR_TAGS = {'fld': 0, 'NR': 1, 'NF': 2, 'bNR': 3, 'bNF': 4, 'NU': 5, 'lit': 6, 'add': 7, 'eq': 8, 'ne': 9, 'lt': 10,
-             'le': 11, 'and': 12, 'or': 13, 'not': 14, 'len': 15, 'int': 16, 'like': 17, 'cond': 18, 'list': 19}
+             'le': 11, 'and': 12, 'or': 13, 'not': 14, 'len': 15, 'int': 16, 'like': 17, 'cond': 18, 'list': 19,
+             'bmax': 20, 'bmin': 21, 'bmaxl': 22, 'bminl': 23, 'bsuml': 24}
 
 
 # ---------------------------------------------------------------- encoding for the model
@@ -39,8 +40,8 @@ def enc_expr(e):
         return '(%d)' % tag
     if t == 'lit':
         return '(6 %s)' % enc_atom(e[1])
-    if t == 'list':
-        return '(19 (%s))' % ' '.join(enc_expr(x) for x in e[1])
+    if t in ('list', 'bmax', 'bmin'):
+        return '(%d (%s))' % (tag, ' '.join(enc_expr(x) for x in e[1]))
     return '(%d %s)' % (tag, ' '.join(enc_expr(x) for x in e[1:]))
 
 
@@ -214,6 +215,10 @@ class Renderer:
             return self.lit(e[1])
         if t == 'list':
             return '[' + ', '.join(self.expr(x) for x in e[1]) + ']'
+        if t in ('bmax', 'bmin'):
+            return ('max' if t == 'bmax' else 'min') + '(' + ', '.join(self.expr(x) for x in e[1]) + ')'
+        if t in ('bmaxl', 'bminl', 'bsuml'):
+            return {'bmaxl': 'max', 'bminl': 'min', 'bsuml': 'sum'}[t] + '(' + self.expr(e[1]) + ')'
         x = [self.expr(a) for a in e[1:]]
         if t == 'add':
             return '(%s + %s)' % (x[0], x[1])
